@@ -437,6 +437,18 @@ class AllocatedScoreDistributor:
         quota = self.quota_function(sum(votes.values()), n_seats)
         while rem_seats > 0:
             agg_scores = self._sum_scores(current_votes)
+            if not agg_scores:
+                # no remaining ballot scores anybody: the candidates that
+                # may still gain a seat are level at zero
+                agg_scores = {
+                    cand: 0
+                    for cand in votelib.util.all_scored_candidates(votes)
+                    if max_seats.get(cand) is None or max_seats[cand] > (
+                        elected.get(cand, 0) + prev_gains.get(cand, 0)
+                    )
+                }
+                if not agg_scores:
+                    break
             best = votelib.evaluate.core.get_n_best(agg_scores, 1)[0]
             if isinstance(best, votelib.evaluate.core.Tie):
                 if rem_seats >= len(best):
@@ -561,15 +573,11 @@ class AllocatedScoreDistributor:
                          cand: Candidate,
                          ) -> Tuple[List[ScoreVoteType], Any]:
         best_votes = []
-        # Bootstrap with overall minimum score.
-        best_score = min(
-            min(score for cand, score in vote)
-            for vote in current_votes
-        )
+        best_score = None
         for vote in current_votes:
             for c, score in vote:
                 if c == cand:
-                    if score > best_score:
+                    if best_score is None or score > best_score:
                         best_votes = [vote]
                         best_score = score
                     elif score == best_score:
